@@ -245,7 +245,7 @@ def _ini_readback(m, tier, seed, out, ob):
              "loop://", "/dev/ttyACM0/", "./tty", "a//b", "net:host:port", "\\\\.\\COM12", "C:/dev/../x",
              " COM3", "COM3 ", "\tCOM3"]
     libsets = [None, [], ["Servo"], ["Servo", "LiquidCrystal", "Servo"], ["", "A", "", "B", "A"], ["A", "B", "C", "B", "A"],
-               ["LiquidCrystal_I2C", "LiquidCrystal_I2C"]]
+               ["LiquidCrystal_I2C", "LiquidCrystal_I2C"], ["LiquidCrystal_I2C", "LiquidCrystal"], ["Servo@1.2.0", "Servo", "LiquidCrystal_I2C", "LiquidCrystal"], ["AB", "A", "B"]]
     srcs = ["void setup(){}\n", "// ünïcode ✓\nvoid loop(){}\n", "", "line1\r\nline2\r\n", "x\ry\n", "const char *s = R\"(raw\r\n)\";\n", "no trailing newline",
             "\r\r\n", "tab\there\n\n\n"]
     dashed = [b for b in boards if not b.replace("_", "").isalnum()]
@@ -429,6 +429,14 @@ def native_samples(reg, rnd, n):
         jobs.append({"id": f"v{i}", "file": PIO, "unit": "validate_platform_board",
                      "params": {"platform": rnd.choice(plats), "board": near}, "self": None, "ghost": {}})
     pool = ["", "Servo", "LiquidCrystal", "LiquidCrystal_I2C", "A", "B"]
+    # systematic: every ordered selection of up to three of these names (one is a prefix of another, one carries a version, one is empty)
+    import itertools
+    names = ["Servo", "LiquidCrystal", "LiquidCrystal_I2C", "Servo@1.2.0", ""]
+    k = 0
+    for size in (1, 2, 3):
+        for combo in itertools.permutations(names, size):
+            jobs.append({"id": f"s{k}", "file": PIO, "unit": "_format_lib_section", "params": {"libraries": {"$list": list(combo)}}, "self": None, "ghost": {}})
+            k += 1
     for i in range(n * 3):
         libs = rnd.choice([None, {"$list": [rnd.choice(pool) for _ in range(rnd.randint(0, 6))]}])
         jobs.append({"id": f"f{i}", "file": PIO, "unit": "_format_lib_section", "params": {"libraries": libs},
